@@ -11,9 +11,13 @@ from vlib import Toks, lst, h2f
 ID = "C08"
 LEVEL = "proof"
 HARNESS = "c08"
-LEAN_MODULES = ["NanoVerif.Props.C08"]
+LEAN_MODULES = ["NanoVerif.Props.C08", "NanoVerif.Proofs.DatasetGradientField"]
 NS = "NanoVerif.Dataset."
 OBLIGATIONS = [NS + t for t in [
+    "gradient_dims_spec", "gradient_features_count", "gradient_descriptor_spec", "gradient_pixel_spec", "gradient_kernel_spec",
+    "gradient_select_spec", "gradient_missing_spec", "gradient_history_view", "gradient_nondegenerate_iff", "selectUnwritten_iff",
+    "weights_normalised", "gx_gy_are_correlations", "gradient_of_affine", "magnitude_is_norm",
+    "custom_fit_spec", "custom_select_spec", "custom_descriptor_spec",
     "getbit_setbit", "ranges_disjoint_tile", "storage_refines", "stored_never_set",
     "flatten_eq_encode_select", "identity_eq_stored", "missing_marked",
     "targets_spec", "product_spec", "columns_total", "column2feature_spec",
@@ -21,10 +25,12 @@ OBLIGATIONS = [NS + t for t in [
     "shuffled_reports", "index_out_of_range_rejected", "empty_index_list_accepted", "wf_reachable",
 ]]
 TRUSTED = [
-    "Lean 4.33.0 kernel (core library only for this property; no Mathlib import)",
+    "Lean 4.33.0 kernel; Props/C08.lean and its Proofs/Dataset*.lean are core Lean only; the four field-level kernel theorems "
+    "(Proofs/DatasetGradientField.lean) import Mathlib.Tactic.Ring/FieldSimp/NormNum, Algebra.Order.Field.Basic, Analysis.Real.Sqrt",
     "axioms: at most propext, Classical.choice, Quot.sound (audited per theorem on every run)",
-    "hand-written model NanoVerif/Model/Mask.lean + Model/Dataset.lean (on top of the C16 tensor model Model/Tensor.lean) of mask.h, "
-    "datasource.h/.cpp, datasource/iterator.h, storage.h, generator/select.h, elemwise*.h, pairwise*.h/.cpp, generator.cpp, dataset.cpp; "
+    "hand-written model NanoVerif/Model/Mask.lean + Model/Dataset.lean + Model/DatasetGenGradient.lean (on top of the C16 tensor "
+    "model Model/Tensor.lean) of mask.h, datasource.h/.cpp, datasource/iterator.h, storage.h, generator/select.h, elemwise*.h, "
+    "gradient.h, elemwise_gradient.h/.cpp, pairwise*.h/.cpp, generator.cpp, dataset.cpp; "
     "tied to the code by the history differential (harness/c08.cpp on the real library vs the compiled Lean driver, exact comparison)",
     "tools/props/c08.py: generator + the independent python oracle (views recomputed from the seed formula and the documented "
     "encodings); harness/c08.cpp; g++/libstdc++/Eigen",
@@ -42,8 +48,17 @@ ASSUMPTIONS = [
     "valid columns are asked; feature subsets passed to a generator's constructor are valid input-feature indices (assert only)",
     "asserts are compiled out in the release build; the model returns none where an assert would fire and the theorems are stated "
     "under the asserted conditions (sample < samples(), feature < features())",
-    "the gradient generator (image kernels) is outside the Lean model: its op lines are checked by the python oracle only "
-    "(model_skip); the flatten/targets iterators are modelled at scaling = none (NaN -> 0 by dataset/stats.cpp nan2zero, as coded)",
+    "the gradient generator is inside the Lean model (Model/DatasetGenGradient.lean + the `.gradient` kind of Model/Dataset.lean) and "
+    "compared bit for bit (same order of the binary64 operations; sqrt / atan2 are the same libm functions on both sides); the python "
+    "oracle evaluates the full 3x3 correlation in exact rational arithmetic and compares at 1e-12 (angles modulo 2*pi, and not at all "
+    "where the exact gradient is (0, 0) under the prewitt kernel, whose 1/3 is not a binary64 number)",
+    "open finding gradient-1x1-select-unwritten is modelled as coded: Dataset.selectUnwritten marks the scalar select of a gradient "
+    "feature derived from a 3x3 image, the driver prints wildcards for the unwritten buffer and `compare` accepts anything there",
+    "the generator templates elemwise_generator_t / pairwise_generator_t are modelled for every (input kind(s), generated kind) "
+    "combination (GKind.custom); the correspondence runs the 10 + 10 combinations harness/c08.cpp instantiates (every generated kind "
+    "through both templates, every input kind, 7 of the 16 pair selections) with fixed value functions (summary, mod 3, parity, "
+    "squares: small integers, exact in binary64); the theorems do not unfold the value functions",
+    "the flatten/targets iterators are modelled at scaling = none (NaN -> 0 by dataset/stats.cpp nan2zero, as coded)",
     "oracle relaxations (nothing is read in either case): select_iterator_t::loop over a kind of feature the dataset does not have "
     "accepts an out-of-range sample list; targets_iterator_t::loop on an unsupervised dataset with an empty sample list does not throw",
     "hypotheses of the theorems: Storage.WF / Dataset.WF (proved for everything built by resize, set, add and any history: "
@@ -52,9 +67,10 @@ ASSUMPTIONS = [
     "memory safety is observed by the ASan/UBSan flavour of the thorough tier only",
 ]
 RULE = ("corpus; boundary schemas (samples in {1,7,8,9,15,16,17,...}, class counts {1,2,3,255,256,257,300}, all-missing and never-missing "
-        "features, every storage type) then random schemas of 1..12 features over the 12 feature types, dims <= 3x3x2 (a few 4x4 images for "
+        "features, every storage type) then random schemas of 1..12 features over the 12 feature types, dims <= 3x3x2 (images up to 6x7x3 for "
         "the gradient generator), samples 1..200, 2500 (quick) / 12000 (thorough) random cases, target of any type or absent, generator stacks (identity x4, product with one or two "
-        "lists, gradient, feature subsets with repeats) and histories of 4..14 ops (flatten/select/targets/iterators with index lists: "
+        "lists, gradient with every kernel on images up to 6x7x3, harness-defined computers through both generator templates, feature "
+        "subsets with repeats), 180 (quick) / 720 (thorough) function-level gradient3x3 cases (kernel x mode x input type) and histories of 4..14 ops (flatten/select/targets/iterators with index lists: "
         "all, reversed, repeats, N-1, N, -1, empty; descriptors; drop/undrop/shuffle/unshuffle/shuffled; invalid feature indices; wrong "
         "overloads), 1..4 threads (quick) / 1..16 (thorough). A case is non-trivial when the schema uses >= 2 storage types, has >= 1 missing "
         "value and some index list of the history has a repeat; distinct by op text")
@@ -100,7 +116,11 @@ class Case:
         self.gens = []
         for _ in range(ng):
             k = t.int(); l1 = t.ints()
-            l2 = t.ints() if k == 5 else None
+            l2 = t.ints() if k in (5, 9) else t.int() if k == 7 else None      # 7: the kernel type follows the list
+            if k == 8:
+                l2 = (t.int(), None, t.int())                 # (input kind, -, generated kind)
+            elif k == 9:
+                l2 = (l2, t.int(), t.int(), t.int())          # (list2, input kind 1, input kind 2, generated kind)
             self.gens.append((k, l1, l2))
         nh = t.int()
         self.hist = []
@@ -159,6 +179,12 @@ class Case:
             w += [k, lst(l1)]
             if k == 5:
                 w += [lst(l2)]
+            elif k == 7:
+                w += [l2]
+            elif k == 8:
+                w += [l2[0], l2[2]]
+            elif k == 9:
+                w += [lst(l2[0]), l2[1], l2[2], l2[3]]
         w += [len(self.hist)]
         for h in self.hist:
             w.append(h[0])
@@ -171,8 +197,73 @@ class Case:
 # the documented bookkeeping: which features a generator stack produces (used by the generator to pick feature indices and by
 # the oracle as the expectation)
 
-SOBEL = (0.25, 0.5, 0.25)
 GRAD_MODES = ["gx", "gy", "gg", "theta"]
+CUSTOM_NAMES = ["lab", "hit", "sum", "pow"]
+
+
+def summary(v):
+    """what the harness computers reduce an input value to"""
+    return sum((j + 1) * x for j, x in enumerate(v))
+
+
+def custom_value(e, v1, v2):
+    """the documented value functions of the harness computers (harness/c08.cpp)"""
+    s1 = summary(v1); s2 = summary(v2) if e["pair"] else s1
+    t = s1 + 2 * s2 if e["pair"] else s1
+    return [[t % 3], [1 if t % 2 == 0 else 0, 1 if t % 3 == 0 else 0], [t], [s1 * s1, s1 * s2, s2 * s2]][e["out"]]
+
+KERNEL_NAMES = ["sobel", "scharr", "prewitt"]
+# the documented kernels: smoothing weights (numerators, denominator) applied across the direction of the derivative
+KERNEL_WEIGHTS = [((1, 2, 1), 4), ((3, 10, 3), 16), ((1, 1, 1), 3)]
+
+
+def kernel_of(k, l2):
+    return 0 if k == 6 else l2
+
+
+def kernel_matrices(kernel):
+    """the two 3x3 correlation masks as integer numerators over the kernel's denominator: KX[i][j] = w[i] * (-1, 0, +1)[j],
+    KY = KX transposed"""
+    (a, b, c), den = KERNEL_WEIGHTS[kernel]
+    w = [a, b, c]
+    d = [-1, 0, 1]
+    kx = [[w[i] * d[j] for j in range(3)] for i in range(3)]
+    ky = [[kx[j][i] for j in range(3)] for i in range(3)]
+    return kx, ky, den
+
+
+KERNEL_MATRICES = [kernel_matrices(k) for k in range(3)]
+
+
+def gradient_exact(kernel, img, r, q):
+    """exact (gx, gy) at output pixel (r, q) as (numerator x, numerator y, denominator): the 3x3 correlation of the image
+    with the two masks"""
+    kx, ky, den = KERNEL_MATRICES[kernel]
+    nx = sum(kx[i][j] * img[r + i][q + j] for i in range(3) for j in range(3))
+    ny = sum(ky[i][j] * img[r + i][q + j] for i in range(3) for j in range(3))
+    return nx, ny, den
+
+
+def gradient_feature(kernel, mode, g):
+    """-> (value, loose): loose = the value is numerically undetermined (angle of a zero gradient under an inexact kernel);
+    int / int is correctly rounded in python"""
+    nx, ny, den = g
+    if mode == 0:
+        return nx / den, False
+    if mode == 1:
+        return ny / den, False
+    if mode == 2:
+        return math.sqrt((nx * nx + ny * ny) / (den * den)), False
+    return math.atan2(ny / den, nx / den), (kernel == 2 and nx == 0 and ny == 0)
+
+
+def same_grad(mode, got, want, loose, tol=1e-12):
+    if loose:
+        return got == got
+    if mode == 3 and got == got and want == want:
+        d = abs(got - want) % (2.0 * math.pi)
+        return min(d, 2.0 * math.pi - d) <= 1e-9
+    return same(got, want, tol)
 
 
 def expected_features(case):
@@ -208,15 +299,40 @@ def expected_features(case):
                 fx, fy = inp[x], inp[y]
                 E.append(dict(kind="product", src=(fx, fy), names=[f"product(f{fx},f{fy})", f"product(f{fy},f{fx})"],
                               type=9, dims=(1, 1, 1), classes=0, cols=1))
-        elif k == 6:
+        elif k in (8, 9):
+            # a computer plugged into elemwise_generator_t / pairwise_generator_t: features by input kind(s), descriptors by
+            # generated kind: 3 labels / 2 labels / scalar / (3,1,1)
+            kinds = ["sclass", "mclass", "scalar", "struct"]
+            out = l2[2] if k == 8 else l2[3]
+            ty, dims, classes, cols = [(10, (1, 1, 1), 3, 2), (11, (1, 1, 1), 2, 2), (9, (1, 1, 1), 0, 1), (9, (3, 1, 1), 0, 3)][out]
+            nm = CUSTOM_NAMES[out]
+            if k == 8:
+                for i in pick(l1, lambda f: case.kind_of(f) == kinds[l2[0]]):
+                    f = inp[i]
+                    E.append(dict(kind="custom", out=out, src=(f,), pair=False, names=[f"{nm}(f{f})"], type=ty, dims=dims,
+                                  classes=classes, cols=cols))
+            else:
+                s1 = pick(l1, lambda f: case.kind_of(f) == kinds[l2[1]])
+                s2 = pick(l2[0], lambda f: case.kind_of(f) == kinds[l2[2]])
+                pairs = {}
+                for x in s1:
+                    for y in s2:
+                        pairs.setdefault((min(x, y), max(x, y)), (x, y))
+                for key in sorted(pairs):
+                    x, y = pairs[key]
+                    fx, fy = inp[x], inp[y]
+                    E.append(dict(kind="custom", out=out, src=(fx, fy), pair=True, names=[f"{nm}(f{fx},f{fy})"], type=ty,
+                                  dims=dims, classes=classes, cols=cols))
+        elif k in (6, 7):
+            kernel = kernel_of(k, l2)
             for i in pick(l1, lambda f: case.kind_of(f) == "struct"):
                 f = inp[i]
                 ty, a, b, c, _ = case.specs[f]
                 if b >= 3 and c >= 3:
                     for ch in range(a):
                         for mode in range(4):
-                            E.append(dict(kind="gradient", src=(f,), channel=ch, mode=mode,
-                                          names=[f"sobel::{GRAD_MODES[mode]}(f{f}[channel::{ch}])"], type=9,
+                            E.append(dict(kind="gradient", src=(f,), channel=ch, mode=mode, kernel=kernel,
+                                          names=[f"{KERNEL_NAMES[kernel]}::{GRAD_MODES[mode]}(f{f}[channel::{ch}])"], type=9,
                                           dims=(1, b - 2, c - 2), classes=0, cols=(b - 2) * (c - 2)))
     return E
 
@@ -225,21 +341,21 @@ def select_kind(e):
     """which select overload serves the feature (by its descriptor)"""
     if e["kind"] in ("sclass", "mclass"):
         return e["kind"]
+    if e["kind"] == "custom" and e["out"] < 2:
+        return ["sclass", "mclass"][e["out"]]
     return "scalar" if e["dims"][0] * e["dims"][1] * e["dims"][2] == 1 else "struct"
 
 
 def gradient_values(case, e, vals):
+    """list of (value, loose) per output pixel, row-major"""
     f = e["src"][0]
     _, a, b, c, _ = case.specs[f]
     ch = e["channel"]
-    img = [[float(vals[ch * b * c + r * c + q]) for q in range(c)] for r in range(b)]
+    img = [[vals[ch * b * c + r * c + q] for q in range(c)] for r in range(b)]
     out = []
-    k0, k1, k2 = SOBEL
     for r in range(b - 2):
         for q in range(c - 2):
-            gx = k0 * (img[r][q + 2] - img[r][q]) + k1 * (img[r + 1][q + 2] - img[r + 1][q]) + k2 * (img[r + 2][q + 2] - img[r + 2][q])
-            gy = k0 * (img[r + 2][q] - img[r][q]) + k1 * (img[r + 2][q + 1] - img[r][q + 1]) + k2 * (img[r + 2][q + 2] - img[r][q + 2])
-            out.append([gx, gy, math.sqrt(gx * gx + gy * gy), math.atan2(gy, gx)][e["mode"]])
+            out.append(gradient_feature(e["kernel"], e["mode"], gradient_exact(e["kernel"], img, r, q)))
     return out
 
 
@@ -248,6 +364,10 @@ def feature_value(case, e, s):
     if e["kind"] == "product":
         x = case.stored(e["src"][0], s); y = case.stored(e["src"][1], s)
         return None if x is None or y is None else [float(x[0]) * float(y[0])]
+    if e["kind"] == "custom":
+        x = case.stored(e["src"][0], s)
+        y = case.stored(e["src"][1], s) if e["pair"] else x
+        return None if x is None or y is None else custom_value(e, x, y)
     v = case.stored(e["src"][0], s)
     if v is None:
         return None
@@ -265,13 +385,23 @@ def view_rows(case, e, flag, samples):
     return [feature_value(case, e, s) for s in samples]
 
 
+def num(x):
+    return float(x[0]) if isinstance(x, tuple) else float(x)
+
+
+def loose(x):
+    return isinstance(x, tuple) and x[1]
+
+
 def encode_flatten(e, v):
-    """the documented dense encoding of one value"""
+    """the documented dense encoding of one value (gradient values stay (value, loose) pairs)"""
     if v is None:
         return [NAN] * e["cols"]
-    if e["kind"] == "sclass":
+    if e["kind"] == "gradient":
+        return list(v)
+    if select_kind(e) == "sclass":
         return [1.0 if k == v[0] else -1.0 for k in range(e["classes"] - 1)]      # one-hot +-1 with C-1 columns
-    if e["kind"] == "mclass":
+    if select_kind(e) == "mclass":
         return [2.0 * h - 1.0 for h in v]
     return [float(x) for x in v]
 
@@ -380,17 +510,21 @@ def check_view(case, e, flag, samples, view, what):
             raise Bad("select-shape", f"{what}: {shape} classes, expected {e['classes']}")
         want = [x for v in rows for x in ([-1] * e["classes"] if v is None else v)]
     elif kind == "scalar":
-        want = [NAN if v is None else float(v[0]) for v in rows]
+        want = [NAN if v is None else v[0] for v in rows]
     else:
         if shape != tuple(e["dims"]):
             raise Bad("select-shape", f"{what}: dims {shape}, expected {e['dims']}")
-        want = [x for v in rows for x in ([NAN] * e["cols"] if v is None else [float(y) for y in v])]
-    if len(vals) != len(want) or not all(same(float(a), float(b), tol) for a, b in zip(vals, want)):
-        k = next((i for i, (a, b) in enumerate(zip(vals, want)) if not same(float(a), float(b), tol)), -1)
+        want = [x for v in rows for x in ([NAN] * e["cols"] if v is None else list(v))]
+    mode = e.get("mode", 0) if e["kind"] == "gradient" else 0
+    eq = lambda a, b: same_grad(mode, float(a), num(b), loose(b), tol) if e["kind"] == "gradient" else same(float(a), num(b), tol)
+    if len(vals) != len(want) or not all(eq(a, b) for a, b in zip(vals, want)):
+        k = next((i for i, (a, b) in enumerate(zip(vals, want)) if not eq(a, b)), -1)
+        want = [num(x) for x in want]
         missing = k >= 0 and (want[k] != want[k] or want[k] == -1)
         key = KNOWN_KEY if (e["kind"] == "gradient" and tuple(e["dims"]) == (1, 1, 1) and kind == "scalar" and flag != "drop") else \
               "drop-view" if flag == "drop" else "shuffle-view" if isinstance(flag, list) else \
-              "product-view" if e["kind"] == "product" else "missing-marker" if missing else "select-view"
+              "product-view" if e["kind"] == "product" else "missing-marker" if missing else \
+              "gradient-view" if e["kind"] == "gradient" else "custom-view" if e["kind"] == "custom" else "select-view"
         raise Bad(key, f"{what}: the view differs from the stored values at position {k}: got {vals[k] if k >= 0 else '?'}, "
                        f"expected {want[k] if k >= 0 else '?'} (feature {e['names'][0]}, flag {'perm' if isinstance(flag, list) else flag})")
 
@@ -407,8 +541,60 @@ def check_matrix(r, tag, n):
 KNOWN_KEY = "gradient-1x1-select-unwritten"
 
 
+def is_grad3(op):
+    return op.startswith("dataset grad3 ")
+
+
+def parse_grad3(op):
+    t = Toks(op)
+    assert t.s() == "dataset" and t.s() == "grad3"
+    kernel = t.int(); mode = t.int(); ity = t.int(); rows = t.int(); cols = t.int(); px = t.ints()
+    assert len(px) == rows * cols and rows >= 3 and cols >= 3
+    return kernel, mode, ity, rows, cols, px
+
+
+def render_grad3(kernel, mode, ity, rows, cols, px):
+    return f"dataset grad3 {kernel} {mode} {ity} {rows} {cols} {lst(px)}"
+
+
+def oracle_grad3(op, res):
+    """gradient3x3 against the definition: output (rows-2, cols-2); each pixel the 3x3 correlation with the documented masks"""
+    kernel, mode, ity, rows, cols, px = parse_grad3(op)
+    r = Toks(res)
+    if r.s() != "ok" or r.s() != "K":
+        return f"[grad3-rejected] gradient3x3 on a {rows}x{cols} image did not answer: {res[:80]}"
+    got_k = [r.f(), r.f(), r.f()]
+    (a, b, c), den = KERNEL_WEIGHTS[kernel]
+    want_k = [a / den, b / den, c / den]
+    if not all(same(x, y, 1e-15) for x, y in zip(got_k, want_k)):
+        return f"[grad3-kernel] make_kernel3x3({KERNEL_NAMES[kernel]}) = {got_k}, documented {want_k}"
+    if abs(sum(got_k) - 1.0) > 1e-15:
+        return f"[grad3-kernel] the {KERNEL_NAMES[kernel]} kernel is not normalised: {got_k}"
+    if r.s() != "O":
+        return "[format] grad3"
+    orows = r.int(); ocols = r.int(); n = r.int()
+    if (orows, ocols, n) != (rows - 2, cols - 2, (rows - 2) * (cols - 2)):
+        return f"[grad3-dims] output {orows}x{ocols} ({n} values) for a {rows}x{cols} input, expected {rows - 2}x{cols - 2}"
+    vals = [r.f() for _ in range(n)]
+    img = [[px[i * cols + j] for j in range(cols)] for i in range(rows)]
+    for i in range(orows):
+        for j in range(ocols):
+            g = gradient_exact(kernel, img, i, j)
+            want, lo = gradient_feature(kernel, mode, g)
+            got = vals[i * ocols + j]
+            if not same_grad(mode, got, want, lo):
+                return (f"[grad3-pixel] {KERNEL_NAMES[kernel]}::{GRAD_MODES[mode]} at output ({i},{j}) = {got!r}, the 3x3 correlation gives "
+                        f"{want!r} (gx = {g[0]}/{g[2]}, gy = {g[1]}/{g[2]})")
+    return None
+
+
 def oracle(op, res):
     """first violation found; the known finding (KNOWN_FINDINGS.json) is reported only when nothing else is wrong with the line"""
+    if is_grad3(op):
+        try:
+            return oracle_grad3(op, res)
+        except Exception as ex:
+            return f"[format] grad3: {ex!r}"
     soft = []
     try:
         why = _oracle(op, res, soft)
@@ -461,11 +647,18 @@ def _oracle(op, res, soft):
                 for k, v in enumerate(rows):
                     want = encode_flatten(e, v)
                     if name == "iflatten":
-                        want = [0.0 if x != x else x for x in want]
+                        want = [0.0 if (not isinstance(x, tuple) and x != x) else x for x in want]
                     got = vals[k * cols + col:k * cols + col + e["cols"]]
-                    if not all(same(a, b, tol) for a, b in zip(got, want)):
+                    if e["kind"] == "gradient":
+                        ok = all(same_grad(e["mode"], a, num(b), loose(b), tol) for a, b in zip(got, want))
+                        want = [num(x) for x in want]
+                    else:
+                        ok = all(same(a, b, tol) for a, b in zip(got, want))
+                    if not ok:
                         key = "drop-view" if flags[i] == "drop" else "shuffle-view" if isinstance(flags[i], list) else \
-                              "flatten-sclass" if e["kind"] == "sclass" else "product-view" if e["kind"] == "product" else "flatten-view"
+                              "flatten-sclass" if e["kind"] == "sclass" else "product-view" if e["kind"] == "product" else \
+                              "gradient-flatten" if e["kind"] == "gradient" else \
+                              "custom-flatten" if e["kind"] == "custom" else "flatten-view"
                         raise Bad(key, f"{what}: row {k} (sample {l[k]}) columns [{col},{col + e['cols']}) of {e['names'][0]} = "
                                        f"{got[:8]}, the documented encoding of the stored value is {want[:8]}")
                 col += e["cols"]
@@ -610,6 +803,9 @@ def _oracle(op, res, soft):
 # generator
 
 N_BOUNDARY = [1, 2, 7, 8, 9, 15, 16, 17, 23, 24, 25]
+# (input kind, generated kind) / (input kind 1, input kind 2, generated kind) instantiated by harness/c08.cpp
+CUSTOM_ELEMWISE = [(0, 0), (0, 2), (1, 1), (1, 2), (2, 0), (2, 1), (2, 2), (2, 3), (3, 2), (3, 3)]
+CUSTOM_PAIRWISE = [(0, 0, 2), (0, 1, 2), (1, 2, 2), (2, 3, 2), (3, 0, 2), (2, 2, 0), (2, 2, 1), (2, 2, 2), (2, 2, 3), (3, 3, 3)]
 SCLASS_COUNTS = [1, 2, 3, 5, 255, 256, 257, 300]
 MCLASS_COUNTS = [1, 2, 3, 4, 7]
 
@@ -623,9 +819,9 @@ def rand_spec(rng, ty=None, image=False):
         return (11, rng.choice(MCLASS_COUNTS), 1, 1, mk)
     if image:
         while True:
-            b, c = rng.range(3, 4), rng.range(3, 4)
+            b, c = (rng.range(3, 4), rng.range(3, 4)) if rng.chance(0.5) else (rng.range(3, 6), rng.range(3, 7))
             if (b, c) != (3, 3):
-                return (ty, rng.range(1, 2), b, c, mk)
+                return (ty, rng.range(1, 3), b, c, mk)
     if rng.chance(0.5):
         return (ty, 1, 1, 1, mk)
     while True:
@@ -667,12 +863,17 @@ def sample_list(rng, N, allow_invalid=True):
 def make_case(rng, tier, N=None, specs=None, boundary=False):
     if N is None:
         N = rng.choice(N_BOUNDARY) if rng.chance(0.7) else rng.range(1, 200 if (tier != "quick" or rng.chance(0.15)) else 60)
-    want_gradient = rng.chance(0.08)
+    want_gradient = rng.chance(0.16)
+    if want_gradient and N > 40 and specs is None:
+        N = rng.range(1, 40)             # images make long rows: keep the views of the gradient cases moderate
     if specs is None:
         nf = rng.range(1, 12) if rng.chance(0.3) else rng.range(1, 6)
         specs = [rand_spec(rng) for _ in range(nf)]
         if want_gradient:
             specs[rng.below(nf)] = rand_spec(rng, rng.below(10), image=True)
+            if rng.chance(0.3):          # a second image, or one below 3x3 in one direction (yields no gradient feature)
+                specs[rng.below(nf)] = rand_spec(rng, rng.below(10), image=True) if rng.chance(0.6) else \
+                    (rng.below(10), rng.range(1, 2), rng.choice([2, 5]), rng.choice([2, 4]), rng.choice([0, 3]))
             g33 = GEN_GRADIENT_3x3 and rng.chance(GEN_GRADIENT_3x3_RATE)
             if g33:
                 specs[rng.below(nf)] = (rng.below(10), rng.range(1, 2), 3, 3, rng.choice([0, 2, 3]))
@@ -702,20 +903,39 @@ def make_case(rng, tier, N=None, specs=None, boundary=False):
             gens.append((rng.below(5), sub(), None))
     if GEN_PRODUCT_TWO_LISTS and rng.chance(0.15):
         gens.append((5, sub(), sub()))
+    if rng.chance(0.22):                 # computers through the two generator templates (the combinations harness/c08.cpp instantiates)
+        kinds_ = ["sclass", "mclass", "scalar", "struct"]
+        tmp = Case("dataset hist 1 0 1 0 -1 0 0"); tmp.specs, tmp.target = specs, target
+        present = {kinds_.index(tmp.kind_of(f)) for f in tmp.inputs()}
+        for _ in range(rng.range(1, 2)):
+            if rng.chance(0.5):
+                good = [x for x in CUSTOM_ELEMWISE if x[0] in present]
+                i, o = rng.choice(good if good and rng.chance(0.85) else CUSTOM_ELEMWISE)
+                gens.insert(rng.below(len(gens) + 1), (8, sub() if rng.chance(0.5) else [], (i, None, o)))
+            else:
+                good = [x for x in CUSTOM_PAIRWISE if x[0] in present and x[1] in present]
+                i1, i2, o = rng.choice(good if good and rng.chance(0.85) else CUSTOM_PAIRWISE)
+                gens.insert(rng.below(len(gens) + 1), (9, sub() if rng.chance(0.5) else [], (sub() if rng.chance(0.5) else [], i1, i2, o)))
     if want_gradient:
-        gens.insert(rng.below(len(gens) + 1), (6, sub() if rng.chance(0.3) else [], None))
+        gl = sub() if rng.chance(0.3) else []
+        gens.insert(rng.below(len(gens) + 1), (6, gl, None) if rng.chance(0.3) else (7, gl, rng.below(3)))
     # keep the number of scalar products moderate
     case = Case("dataset hist 1 0 1 0 -1 0 0")
     case.N, case.seed, case.threads, case.specs, case.target, case.gens, case.hist = N, seed, threads, specs, target, gens, []
     E = expected_features(case)
     while len(E) > 40 or sum(e["cols"] for e in E) > 700:
-        gens.pop()
+        k = next((i for i in range(len(gens) - 1, -1, -1) if gens[i][0] not in (6, 7)), len(gens) - 1) if want_gradient else len(gens) - 1
+        gens.pop(k)
         E = expected_features(case)
     F = len(E); C = sum(e["cols"] for e in E)
+
+    grad_feats = [i for i, e in enumerate(E) if e["kind"] == "gradient"]
 
     def feat(invalid_ok=True):
         if invalid_ok and rng.chance(0.06):
             return rng.choice([-1, F, F + 3])
+        if grad_feats and rng.chance(0.5):
+            return rng.choice(grad_feats)    # the history (drop / shuffle / select) goes through the gradient generator
         return rng.below(F) if F > 0 else rng.choice([-1, 0])
 
     hist = []
@@ -795,12 +1015,56 @@ def boundary_cases(rng, tier):
     return ops
 
 
+def grad3_cases(rng, tier):
+    """function level: every kernel x mode x input type; constant / ramp / impulse / random images of 3..9 rows and columns"""
+    ops = []
+    def image(kind, rows, cols, lo, hi):
+        if kind == 0:
+            v = rng.range(lo, hi); return [v] * (rows * cols)
+        if kind == 1:                    # horizontal / vertical / diagonal ramp: gx, gy known in closed form
+            a, b = rng.range(-3, 3), rng.range(-3, 3)
+            return [max(lo, min(hi, a * j + b * i)) for i in range(rows) for j in range(cols)]
+        if kind == 2:
+            px = [0] * (rows * cols); px[rng.below(rows * cols)] = rng.range(max(lo, 1), hi); return px
+        return [rng.range(lo, hi) for _ in range(rows * cols)]
+    sizes = [(3, 3), (3, 4), (4, 3), (3, 7), (5, 3), (4, 4)]
+    for kernel in range(3):
+        for mode in range(4):
+            for ity in range(5):
+                reps = 3 if tier == "quick" else 12
+                for rep in range(reps):
+                    rows, cols = sizes[rep] if rep < len(sizes) and rng.chance(0.6) else (rng.range(3, 9), rng.range(3, 9))
+                    lo, hi = (0, 100) if ity == 4 else (-100, 100) if ity == 2 else (-1000, 1000)
+                    ops.append(render_grad3(kernel, mode, ity, rows, cols, image(rng.below(4) if rep else 3, rows, cols, lo, hi)))
+    return ops
+
+
+def gradient_boundary_cases(rng, tier):
+    """every kernel on a fixed schema: 2-channel 4x5 image with missing samples, a 2x5 one (no features), a scalar; views, drop / shuffle histories through the gradient features"""
+    ops = []
+    for kernel in range(3):
+        for N in (1, 9):
+            c = Case("dataset hist 1 0 1 0 -1 0 0")
+            c.N, c.seed, c.threads, c.target = N, 77 + kernel + N, 1, -1
+            c.specs = [(rng.below(10), 2, 4, 5, 3), (2, 1, 2, 5, 0), (8, 1, 1, 1, 2)]
+            c.gens = [(2, [], None), (7, [], kernel), (3, [], None)]
+            all_ = list(range(N))
+            c.hist = [("flatten", all_), ("select", 1, -1, all_ + [N - 1]), ("select", 4, -1, all_), ("select", 7, 3, [N - 1, 0]),
+                      ("iselect", 3, all_), ("drop", 3), ("select", 3, -1, all_), ("flatten", all_), ("undrop",), ("shuffle", 6),
+                      ("select", 6, -1, all_), ("shuffled", 6, all_), ("flatten", all_[::-1]), ("unshuffle",), ("select", 6, -1, all_),
+                      ("select", 1, 2, all_), ("select", 2, -1, [N]), ("feature", 16), ("feature", 17), ("iflatten", 4, all_)]
+            ops.append(c.render())
+    return ops
+
+
 def gen(rng, tier):
     ops = []
     cp = os.path.join(vlib.VERIF, "corpus", "C08", "ops.txt")
     if os.path.exists(cp):
         ops += [l.strip() for l in open(cp) if l.strip() and not l.startswith("#")]
     ops += boundary_cases(rng, tier)
+    ops += gradient_boundary_cases(rng, tier)
+    ops += grad3_cases(rng, tier)
     for _ in range(2500 if tier == "quick" else 12000):
         ops.append(make_case(rng, tier))
     return ops
@@ -809,14 +1073,22 @@ def gen(rng, tier):
 # ---------------------------------------------------------------------------------------------------------
 # bookkeeping for check.py
 
-def model_skip(aug):
-    try:
-        return any(k == 6 for k, _, _ in Case(aug).gens)
-    except Exception:
-        return False
+def compare(aug, impl, model):
+    """exact token-wise comparison; `?` on the model side = contents not specified by the model (unwritten buffer of the
+    known finding gradient-1x1-select-unwritten)"""
+    if impl == model:
+        return True
+    a, b = impl.split(), model.split()
+    return len(a) == len(b) and all(x == y or y == "?" for x, y in zip(a, b))
 
 
 def nontrivial(op):
+    if is_grad3(op):
+        try:
+            px = parse_grad3(op)[5]
+            return len(set(px)) > 1
+        except Exception:
+            return False
     try:
         c = Case(op)
     except Exception:
@@ -834,6 +1106,14 @@ def distribution(ops):
     def inc(k):
         d[k] = d.get(k, 0) + 1
     for op in ops:
+        if is_grad3(op):
+            try:
+                k, m, ity, rows, cols, _ = parse_grad3(op)
+                inc(f"grad3:{KERNEL_NAMES[k]}::{GRAD_MODES[m]}"); inc(f"grad3:input-type-{ity}")
+                inc("grad3:image:" + ("3x3" if (rows, cols) == (3, 3) else "3xN" if 3 in (rows, cols) else "larger"))
+            except Exception:
+                inc("unparsed")
+            continue
         try:
             c = Case(op)
         except Exception:
@@ -841,8 +1121,28 @@ def distribution(ops):
         inc("samples:" + ("1" if c.N == 1 else "mult8" if c.N % 8 == 0 else "other"))
         inc("threads:" + ("1" if c.threads == 1 else ">1"))
         inc("target:" + ("none" if c.target < 0 else TYPE_NAMES[c.specs[c.target][0]]))
-        for k, _, _ in c.gens:
-            inc("gen:" + ["sclass", "mclass", "scalar", "struct", "product", "product2", "gradient"][k])
+        for k, _, l2 in c.gens:
+            inc("gen:" + ["sclass", "mclass", "scalar", "struct", "product", "product2", "gradient", "gradient-kernel",
+                          "custom-elemwise", "custom-pairwise"][k])
+            if k == 8:
+                inc(f"custom:elemwise:{l2[0]}->{l2[2]}")
+            if k == 9:
+                inc(f"custom:pairwise:{l2[1]}x{l2[2]}->{l2[3]}")
+            if k in (6, 7):
+                inc("gradient-kernel:" + KERNEL_NAMES[kernel_of(k, l2)])
+        try:
+            E = expected_features(c)
+        except Exception:
+            E = []
+        ge = [e for e in E if e["kind"] == "gradient"]
+        if ge:
+            inc("gradient:stacks-with-features")
+            if any(e["cols"] > 1 for e in ge):
+                inc("gradient:output>1x1")
+            gi = {i for i, e in enumerate(E) if e["kind"] == "gradient"}
+            for h in c.hist:
+                if h[0] in ("drop", "shuffle", "select") and h[1] in gi:
+                    inc("gradient:" + h[0])
         for h in c.hist:
             inc("op:" + h[0])
             if isinstance(h[-1], list):
@@ -870,6 +1170,8 @@ def _old_pairing_hazard(case):
 def classify(op, kind, detail):
     if kind == "oracle" and detail.startswith("["):
         return detail[1:detail.index("]")]
+    if is_grad3(op):
+        return "grad3-crash" if kind == "crash" else "corr:grad3"
     try:
         c = Case(op)
     except Exception:
@@ -916,13 +1218,33 @@ def preconditions_ok(c):
 def shrink_candidates(op):
     for cand in _shrink_candidates(op):
         try:
-            if preconditions_ok(Case(cand)):
+            if is_grad3(cand) or preconditions_ok(Case(cand)):
                 yield cand
         except Exception:
             continue
 
 
+def _shrink_grad3(op):
+    try:
+        kernel, mode, ity, rows, cols, px = parse_grad3(op)
+    except Exception:
+        return
+    img = [px[i * cols:(i + 1) * cols] for i in range(rows)]
+    if rows > 3:
+        for cut in (img[1:], img[:-1]):
+            yield render_grad3(kernel, mode, ity, rows - 1, cols, [x for r in cut for x in r])
+    if cols > 3:
+        for cut in ([r[1:] for r in img], [r[:-1] for r in img]):
+            yield render_grad3(kernel, mode, ity, rows, cols - 1, [x for r in cut for x in r])
+    for i, x in enumerate(px):
+        if x != 0:
+            yield render_grad3(kernel, mode, ity, rows, cols, px[:i] + [0] + px[i + 1:])
+
+
 def _shrink_candidates(op):
+    if is_grad3(op):
+        yield from _shrink_grad3(op)
+        return
     try:
         c = Case(op)
     except Exception:
